@@ -51,6 +51,26 @@ def run(ctx):
     ctx.rule("R11.reg", "registries are get-or-create caches; every eviction is "
              "holder-safe (rule U)")
     interp = ctx.model.interp
+    # the listener tables are the one kind of state the property lets live in
+    # memory -- *because* each entry is a live connection's subscription.  That
+    # holds only while an entry is removed when its connection closes the mailbox
+    # or goes away (same rule instances as R02.key)
+    ctx.rule("R11.sub", "a listener entry exists only while its connection is subscribed "
+             "(rule instances of R02.key): the listener tables hold nothing that a restart "
+             "plus reconnects would not rebuild")
+    from . import c02 as _c02
+    from ..report import Ctx as _Ctx
+    _sub = _Ctx(ctx.model, "C02", ctx.tier)
+    _c02.run(_sub)
+    _ns = 0
+    for o in _sub.obligations:
+        if o.rule == "R02.key":
+            _ns += 1
+            ctx.ob("R11.sub", o.construct, o.ok, o.site, o.detail +
+                   ("" if o.ok else " -- the kept server goes on treating the mailbox as "
+                    "subscribed (the sweep keeps refreshing it) while a server rebuilt from "
+                    "the database expires it"))
+    ctx.require("R11.sub", _ns, 2, "listener life-cycle obligations")
     expected = set(list(interp.registries.keys()) + [ctx.model.names.listeners])
     found_state = {}
     for mname in MODS:
